@@ -619,3 +619,18 @@ Qed.
 (* non-vacuity: the circuit of proofs/TrackedValidP.v is accepted by twf *)
 Example circuit_twf : twf circ_tys circ_ins circ_specs false circ_prog = true.
 Proof. vm_compute. reflexivity. Qed.
+
+(* the premise is needed: a qubit untracked and never used again.  The tracked builder accepts the program, C01's
+   builder model serialises a document, and the validity predicate rejects it (a non-copyable output without a
+   link); twf says no. *)
+Definition drop_prog : list cmd :=
+  [ Add (mkOp 10 2) [] [AI 0%Z; AI 1%Z]; Untrack 1%Z; SetTrackedOutputs ].
+Example twf_needed :
+  twf circ_tys [0; 0] [OFixed [0; 0] [0; 0]] true drop_prog = false /\
+  (exists h tr, run_tracked 2 true drop_prog = (h, tr, None)) /\
+  exists g, Builder.run circ_tys (to_builder [0; 0] [OFixed [0; 0] [0; 0]] (explicit_prog 2 true drop_prog)) = Ok g /\
+            valid {| v_tys := circ_tys; v_main := g; v_subs := [] |} = false.
+Proof.
+  split; [vm_compute; reflexivity|]. split; [eexists; eexists; vm_compute; reflexivity|].
+  eexists. split; vm_compute; reflexivity.
+Qed.
